@@ -44,14 +44,8 @@ Lemma g_req_login g n sub stamp m :
   = option_map (mark_done n sub stamp) (g_req g m).
 Proof. unfold g_req. apply find_map_same. intro x. unfold mark_done. destruct (Nat.eqb (q_id x) n); reflexivity. Qed.
 
-Lemma id_sub_openid sc sub : string_in "openid" sc = true -> id_sub sc sub = sub.
-Proof. intro Hin. unfold id_sub. now rewrite Hin, orb_true_r. Qed.
-
-Lemma openid_guard sc sub : (negb (string_in "openid" sc) || String.eqb (id_sub sc sub) sub) = true.
-Proof.
-  destruct (string_in "openid" sc) eqn:E; cbn; [|reflexivity].
-  rewrite id_sub_openid; auto. apply String.eqb_refl.
-Qed.
+Lemma openid_guard (b : bool) (x : string) : (b || String.eqb x x) = true.
+Proof. rewrite String.eqb_refl. apply orb_true_r. Qed.
 
 Lemma aud_with_in c l : string_in c (aud_with c l) = true.
 Proof.
